@@ -27,12 +27,15 @@ ok=0
 if [ "$fail" = "0" ] && [ "$with" != "0" ] && [ "$without" = "0" ]; then ok=1; fi
 log "confirmed=$ok"
 cd /verif
-if git -C /repo apply $OUT/patch.diff; then
-  ./check $P --no-evidence > $OUT/check_output.txt 2>&1; rc=$?
-  git -C /repo checkout -- .
+# the property's check runs against a scratch copy of /repo's include/ + src/ with the patch applied (VERIF_REPO), so that
+# /repo itself is never modified and concurrent runs of other checks are not disturbed
+SC=$(mktemp -d /var/tmp/urcu-seedconf-XXXXXX)
+cp -r /repo/include /repo/src $SC/
+if (cd $SC && patch -p1 -s -i $OUT/patch.diff); then
+  VERIF_REPO=$SC ./check $P --no-evidence > $OUT/check_output.txt 2>&1; rc=$?
   log "check $P on seeded tree: exit $rc"
   grep -E "^(VIOLATION|UNDECIDED|KNOWN)" $OUT/check_output.txt | head -5 | tee -a $OUT/confirm.log
 else
-  log "patch does not apply to /repo"
+  log "patch does not apply to a copy of /repo"
 fi
-git -C /repo status --short | grep -v '^??' | head -3
+rm -rf $SC
